@@ -524,13 +524,15 @@ def check_templates(model: Model, report: Report, rule: str) -> None:
     judge("query.JSONPathQuery", q_attrs, lambda m: ["$", ("str", m[0]), ("str", m[1])], "query = $ followed by its segments")
 
     # literals
-    for cname, val, want in (("BooleanLiteral", Const(True), "true"), ("BooleanLiteral", Const(False), "false"), ("NullLiteral", Const(None), "null"), ("IntegerLiteral", Const(-12), "-12"), ("FloatLiteral", Const(1.5), "1.5"), ("FloatLiteral", Const(1e22), "1e+22"), ("FloatLiteral", Const(-0.0), "-0.0")):
+    for cname, val, want in (("BooleanLiteral", Const(True), "true"), ("BooleanLiteral", Const(False), "false"), ("NullLiteral", Const(None), "null"), ("IntegerLiteral", Const(-12), "-12")):
 
         def lit_attrs(it: Interp, x: Inst, val=val) -> Any:
             x.attrs["value"] = val
             return None
 
         judge(FE + cname, lit_attrs, lambda m, want=want: [want], f"{cname}({val.value!r}) renders as {want}")
+
+    check_number_literal_round_trip(model, report, rule, run_str)
 
     def sl_attrs2(it: Interp, x: Inst) -> Any:
         with_canon(it)
@@ -622,6 +624,93 @@ def check_templates(model: Model, report: Report, rule: str) -> None:
                 report.fail(rule, fn.qualname, key2, f"{cname}.__str__ {prob}", file=fn.file, line=fn.line)
             else:
                 report.ok(rule, fn.qualname, key2)
+
+
+# one representative per spelling form of repr(float) / repr(int): sign x {fixed, exponent form without / with a
+# fraction} x exponent sign, the switch-over points 1e16 and 1e-5, both zeros, and integers as repr gives them
+FLOAT_FORMS = (1.5, 0.0, -0.0, 123456.789, 1000000000000000.0, 0.0001, 1e16, -1e16, 1e22, 1.5e16, 1.2345678901234567e19, 1.5e300, 1e-05, 1.5e-05, -1e-07, 2.5e-300, 5e-324, 1.7976931348623157e308)
+INT_FORMS = (0, 7, -12, 1000000, 2**53 - 1, -(2**53 - 1), 10**22, int(1e30))
+
+
+def check_number_literal_round_trip(model: Model, report: Report, rule: str, run_str: Any) -> None:
+    """What `__str__` writes for a number literal is read back as the same literal: for one representative of every
+    spelling form of repr(float), the text written for FloatLiteral(v) lies in the language the reader tokenises and
+    accepts as a FLOAT (not merely as some number: text read back as an integer literal serialises differently the
+    second time) and converts to v again (A1: the reader's `float(text)`); likewise IntegerLiteral and INT."""
+    from . import _lexrules
+
+    FE = "filter_expressions."
+    try:
+        si, sf = _lexrules.number_literal_sites(model)
+    except Unsupported as err:
+        report.undecided(rule, FE + "FloatLiteral.__str__", f"number literal sites: {err}")
+        return
+    if si.undecided or sf.undecided:
+        report.undecided(rule, FE + "FloatLiteral.__str__", f"number literal sites: {si.undecided or sf.undecided}")
+        return
+    for cname, forms, site, conv, other in (("FloatLiteral", FLOAT_FORMS, sf, float, si), ("IntegerLiteral", INT_FORMS, si, lambda t: int(float(t)), sf)):
+        fnq = FE + cname + ".__str__"
+        for v in forms:
+
+            def attrs(it: Interp, x: Inst, v=v) -> Any:
+                x.attrs["value"] = Const(v)
+                return None
+
+            outs, err, fn = run_str(FE + cname, attrs)
+            what = f"{cname}({v!r})"
+            if outs is None:
+                report.undecided(rule, fnq, f"{what}: {err}")
+                continue
+            ok = True
+            for got, marks, world in outs:
+                if len(got) != 1 or not isinstance(got[0], str):
+                    report.undecided(rule, fnq, f"{what}: the text written is not a constant ({got})")
+                    ok = False
+                    break
+                text = got[0]
+                form = "exponent-form-without-fraction" if ("e" in repr(v) and "." not in repr(v)) else ("exponent-form" if "e" in repr(v) else "fixed-form")
+                if not _lexrules.lang_accepts(site.accepted, text):
+                    ok = False
+                    as_other = _lexrules.lang_accepts(other.accepted, text)
+                    how = f"it is read back as {'an integer' if cname == 'FloatLiteral' else 'a float'} literal, so serialising the reparsed query gives a different text" if as_other else "the library's own reader refuses it"
+                    report.fail(rule, fnq, f"number-round-trip:{cname}:{form}:{'other-literal-class' if as_other else 'refused'}", f"{what} is written as {text!r}; {how}", file=fn.file, line=fn.line)
+                    break
+                try:
+                    back = conv(text)
+                except (ValueError, OverflowError):
+                    back = None
+                if back != v or (isinstance(v, float) and repr(back) != repr(v)):
+                    ok = False
+                    report.fail(rule, fnq, f"number-round-trip:{cname}:{form}:value", f"{what} is written as {text!r}, which reads back as {back!r}", file=fn.file, line=fn.line)
+                    break
+            if ok:
+                report.ok(rule, fnq, f"number-round-trip:{what}")
+    # values the reader can produce that have no spelling: float() of a lexeme in the FLOAT language is infinite when
+    # the exponent is large (A1); repr(inf) is not a number literal.  The reader must refuse such lexemes.
+    check_non_finite(model, report, rule)
+
+
+def check_non_finite(model: Model, report: Report, rule: str) -> None:
+    from . import _lexrules
+
+    pf = model.cls("parse.Parser").find_method("parse_float_literal")
+    if pf is None:
+        raise AnalysisError("anchor vanished: Parser.parse_float_literal")
+    for lexeme in ("1.0e400", "-1.0e400"):
+
+        def body(it: Interp, lexeme=lexeme) -> Any:
+            return _lexrules.literal_site(model, "FLOAT")(it, Const(lexeme))
+
+        try:
+            runs = paths(model, body)
+        except Unsupported as err:
+            report.undecided(rule, pf.qualname, f"non-finite:{lexeme}: {err}")
+            continue
+        bad = [r for r in runs if r.kind == "return"]
+        if bad:
+            report.fail(rule, pf.qualname, "number-round-trip:FloatLiteral:non-finite-accepted", f"the float literal {lexeme} is accepted although float({lexeme!r}) is infinite: str(query) then contains {repr(float(lexeme))!r}, which is not a number literal (the integer spelling 1e400 is refused)", file=pf.file, line=pf.line)
+        else:
+            report.ok(rule, pf.qualname, f"non-finite:{lexeme} refused")
 
 
 def check_number_writers(model: Model, report: Report, rule: str) -> None:
